@@ -1563,17 +1563,24 @@ def value_before(ctx, var, at, depth=0):
     tp = _npos(at)
     at_anc = set(id(x) for x in ancestors(at)) | {id(at)}
     last = None
+    later = []
     for kind, m in ctx.mutations.get(var, []):
         mp = _npos(m)
         if m is at:
             continue
         if not mp < tp or any(a is m for a in ancestors(at)):
-            # a mutation after `at`, or `at` is inside the mutating statement itself: but one in a shared loop still reaches
-            if _shared_loop(m, at, b.node):
-                return None
+            later.append(m)
             continue
         if last is None or _npos(last[1]) < mp:
             last = (kind, m)
+    # a later mutation reaches `at` only around the back edge of a loop containing both; the dominating definition
+    # (the `let`, or the last assignment before `at`) kills it when it sits inside that loop too
+    def_node = last[1] if last is not None else b.node
+    def_anc = set(id(x) for x in ancestors(def_node)) if def_node is not None else set()
+    for m in later:
+        for L in ancestors(m):
+            if L.get("k") in ("For", "While", "Loop") and id(L) in at_anc and L is not at and id(L) not in def_anc:
+                return None
     if last is None:
         return ctx.term(b.init) if b.init is not None else None
     kind, m = last
